@@ -704,6 +704,7 @@ func (fx *FuncExec) loopHead(li *loopInfo, pre *State) *State {
 	if fx.V.covers && li.spec != nil && len(li.spec.Invariants) > 0 {
 		fx.cover(st, "loop "+li.name+": the invariant is satisfiable at the loop head", pos)
 	}
+	st.calledIter = map[string]string{} // nothing has been called in this iteration yet
 	li.old = st.Clone()
 	st.labels["loop"+li.name] = li.old
 	return st
